@@ -60,13 +60,13 @@ def grid_configs(tier):
     """Exhaustive small scope (DESIGN.md C02): every combination, every scheduler."""
     if tier == "quick":
         Ns = [8, 9, 16, 31]
-        olaps = [0.0, 0.5, 0.75, 0.99]
+        olaps = [0.0, 0.5, 0.75, 0.99, 1.0 / 3.0, 0.6]
         bmins = [1.0, 2.0]
         Jd = [1, 3, 10, 100]
         Kd = [1, 5, 100]
     else:
         Ns = list(range(8, 41))
-        olaps = [0.0, 0.25, 0.5, 0.75, 0.9, 0.99]
+        olaps = [0.0, 0.25, 0.5, 0.75, 0.9, 0.99, 1.0 / 3.0, 2.0 / 3.0, 0.2, 0.3, 0.6, 0.7]
         bmins = [1.0, 1.5, 2.0, 3.7]
         Jd = [1, 2, 3, 5, 10, 30, 100]
         Kd = [1, 2, 5, 20, 100]
